@@ -340,6 +340,15 @@ def run(check: Check):
                  f'{mu.how} ({mu.root}): state kept between calls - a later rotation can see shapes / keys of an earlier one', node=mu.node)
   check.ob('R-PURE', wh, 'no writes to module state or arguments in walsh_hadamard.py', n_mut == 0, 'rotations are functions of their arguments',
            nontrivial=False)
+  # no function of the module consumes its argument buffers: the transform / rotation can be applied to the same array again
+  from fjsa.rules.donate import DonationAnalysis
+  da = DonationAnalysis(repo)
+  decl = [d for d in da.declared() if d[0] is repo.module(MOD)]
+  for d in decl:
+    check.ob('R-DONATE', d[0], f'{d[2]} donates {d[3]}', False,
+             'a donating jit wrapper invalidates the caller\'s array: H(H(x)), a norm check after the round trip or a second inverse with '
+             'another key would read a deleted buffer', node=d[1])
+  check.ob('R-DONATE', wh, 'no donate_argnums in walsh_hadamard.py', not decl, 'inputs stay valid after every call', nontrivial=False)
   # finiteness: rotations divide only by lengths (shape-derived) - a data-dependent denominator gives 0/0 on an all-zero leaf
   from fjsa.rules.div import DivAnalysis
   dv = DivAnalysis(repo)
